@@ -90,7 +90,10 @@ TableRm(s, m) == IF Collide THEN [s EXCEPT !.tord = SelectSeq(@, LAMBDA x : x # 
 \* registered or referenced
 Mod0 == [st |-> "none", reg |-> FALSE, old |-> FALSE, h |-> 0, fl |-> {}, src |-> {}, tb |-> [rate |-> 0, burst |-> 0, tok |-> 0, tmr |-> FALSE], bt |-> FALSE, pipe |-> <<>>, subs |-> {}, bq |-> <<>>, blen |-> 0, stash |-> <<>>, hs |-> <<>>]
 NewMod(m, i) == [Mod0 EXCEPT !.st = "idle", !.reg = TRUE, !.h = 1, !.fl = Flags[m][i]]
-Ctx0 == [st |-> "none", quit |-> FALSE, qcode |-> 0, fin |-> FALSE, tick |-> 0]
+\* gen: which context of this thread it is: 0 = registered from the top level; a fresh context registered from inside a callback while
+\* calls made on behalf of the previous (released) one are still in progress gets the next number, so that those calls know that the
+\* context they belong to is gone
+Ctx0 == [st |-> "none", quit |-> FALSE, qcode |-> 0, fin |-> FALSE, tick |-> 0, gen |-> 0]
 Init0 == [ctx |-> Ctx0,
           run |-> 0,
           mod |-> [m \in Mods |-> Mod0],
@@ -193,7 +196,7 @@ PushEvt(s, m, msg) ==
 EnterCb(s, m, kind, evs) == [Push(s, CbFrame(s, m, kind, evs)) EXCEPT !.cur = m]
 
 \* the context object is released: module objects still referenced by the program belong to a context that is gone
-ReleaseCtx(s) == [s EXCEPT !.ctx.st = "none", !.mod = [x \in Mods |-> [s.mod[x] EXCEPT !.old = (s.mod[x].st # "none")]]]
+ReleaseCtx(s) == [s EXCEPT !.ctx = [Ctx0 EXCEPT !.gen = s.ctx.gen], !.run = 0, !.mod = [x \in Mods |-> [s.mod[x] EXCEPT !.old = (s.mod[x].st # "none")]]]
 
 \* reset_module(): what stop() clears
 \* descriptors registered with auto-close are closed when their source goes away
@@ -244,7 +247,7 @@ Step(s) ==
             IF f.a /\ Limited(r, m) /\ r.mod[m].tb.tok = 0 THEN Ret(r, EAGAIN) ELSE
             LET r1 == IF f.a THEN Spend(r, m) ELSE r
                 s1 == [StartTasks(r1, m, TaskKeys(r, m))                                      \* its sources are armed; task sources are handed to the pool
-                          EXCEPT !.mod[m].st = "running", !.run = r.run + 1,
+                          EXCEPT !.mod[m].st = "running", !.run = IF r.mod[m].old THEN r.run ELSE r.run + 1,
                                  !.mod[m].pipe = IF f.a THEN <<>> ELSE r.mod[m].pipe]
             IN IF f.a /\ HasHook(m, "start")
                  THEN EnterCb(Push(s1, Fr("start2", m, TRUE, 0)), m, "start", <<>>)
@@ -252,26 +255,26 @@ Step(s) ==
       [] f.k = "start2" ->       \* after on_start (f.a = its answer)
             IF r.mod[m].st \in {"zombie", "none"} THEN Ret(r, NEG)                  \* deregistered inside on_start
             ELSE IF ~f.a THEN Push(r, Fr("stop", m, TRUE, 0))                         \* refusing start callback: stop right away (result = stop's)
-            ELSE Ret(Sys(r, "MOD_STARTED", m), 0)
+            ELSE Ret(IF r.mod[m].old THEN r ELSE Sys(r, "MOD_STARTED", m), 0)
       [] f.k = "retval" -> Ret(r, f.a)
       [] f.k = "stop" ->         \* stop(mod, stopping = f.a)
             LET discard == IF f.a THEN r.mod[m].pipe ELSE <<>>                     \* unread messages are destroyed on stop
                 r0 == JoinFor(r, m)                                                 \* started tasks are waited for before their sources leave the poll
                 s1 == [r0 EXCEPT !.pay = ReleaseAll(r.pay, discard),
                                 !.mod[m].pipe = IF f.a THEN <<>> ELSE r.mod[m].pipe,
-                                !.run = IF r.mod[m].st = "running" THEN r.run - 1 ELSE r.run,
+                                !.run = IF r.mod[m].st = "running" /\ ~r.mod[m].old THEN r.run - 1 ELSE r.run,    \* (the counter of its own context)
                                 !.due = DropDue(r.due, m),                             \* its timers are disarmed (re-armed from scratch on resume)
                                 !.xdue = DropDue(r0.xdue, m),                          \* its watch / notification descriptors are closed: what was pending there is lost
                                 !.tlost = DropDue(r0.tlost, m),
                                 !.idue = {d \in r.idue : d[1] # m},
                                 !.mod[m].st = IF f.a THEN "stopped" ELSE "paused"]
-            IN IF ~f.a THEN Ret(Sys(s1, "MOD_STOPPED", m), 0)
+            IN IF ~f.a THEN Ret(IF r.mod[m].old THEN s1 ELSE Sys(s1, "MOD_STOPPED", m), 0)
                ELSE LET s2 == ResetMod(s1, m) IN
                     IF HasHook(m, "stop") THEN EnterCb(Push(s2, Fr("stop2", m, 0, 0)), m, "stop", <<>>)
                                           ELSE Push(s2, Fr("stop2", m, 0, 0))
       [] f.k = "stop2" ->
             IF r.mod[m].st \in {"zombie", "none"} THEN Ret(r, NEG)                  \* deregistered inside on_stop
-            ELSE Ret(Sys(r, "MOD_STOPPED", m), 0)
+            ELSE Ret(IF r.mod[m].old THEN r ELSE Sys(r, "MOD_STOPPED", m), 0)            \* (its context was released by its own stop callback: nobody to notify)
       [] f.k = "dereg" ->        \* mod_deregister(&m, from_user = f.a): removed from the table first, then stopped (whatever its state)
             Push(Push(TableRm([r EXCEPT !.mod[m].reg = FALSE], m), Fr("dereg2", m, f.a, 0)), Fr("stop", m, TRUE, 0))
       [] f.k = "dereg2" ->
@@ -282,8 +285,8 @@ Step(s) ==
             LET hn == IF f.a THEN r.mod[m].h - 1 ELSE r.mod[m].h
                 s1 == [r EXCEPT !.mod[m] = IF hn = 0 THEN Mod0
                                            ELSE [Mod0 EXCEPT !.st = "zombie", !.h = hn, !.old = (r.mod[m].old \/ r.ctx.st = "none")]]
-            IN IF f.a /\ s1.ctx.st # "looping" /\ Registered(s1) = {} /\ ~CtxPersist
-                 THEN IF s1.ctx.st = "none" THEN Ret(s1, NEG)                              \* (context already released by a nested call)
+            IN IF f.a /\ s1.ctx.st # "looping" /\ Registered(s1) = {} /\ ~CtxPersist /\ ~(r.mod[m].old /\ s1.ctx.st # "none")
+                 THEN IF s1.ctx.st = "none" THEN Ret(s1, 0)                                \* (context already released by a nested call: nothing left to do)
                       ELSE Ret(ReleaseCtx(s1), 0)                                          \* last module gone: context released at once
                  ELSE Ret(s1, 0)
       [] f.k = "evalpass" ->     \* m_iterate(c->modules, evaluate_module): f.b = modules still to visit
@@ -356,7 +359,7 @@ Step(s) ==
             [r EXCEPT !.pay = ReleaseAll(r.pay, f.ev)]
       [] f.k = "lstop" ->        \* loop_stop(): IDLE, "loop stopped" notification, flush of every mailbox
             LET s1 == Sys([r EXCEPT !.ctx.st = "idle", !.idue = @ \ {<<"", "tick">>}], "CTX_STOPPED", "ctx")
-            IN Push(Push(s1, Fr("lstop2", NoMod, 0, 0)), Fr("flush", NoMod, 0, RegSeq(s1)))
+            IN Push(Push(s1, Fr("lstop2", NoMod, r.ctx.gen, r.ctx.qcode)), Fr("flush", NoMod, 0, RegSeq(s1)))
       [] f.k = "flush" ->        \* flush_pubsub_msgs for each module: RUNNING gets everything in one invocation, others lose it
             IF f.b = <<>> THEN r
             ELSE LET x == Head(f.b)
@@ -380,18 +383,19 @@ Step(s) ==
       [] f.k = "lstop2" ->       \* quit code; a non-persistent context without modules is released now
             \* the task pool is torn down: running tasks are waited for (their notifications stay pending for the next loop run),
             \* tasks still waiting in its queue are discarded and never run
-            LET code == r.ctx.qcode
+            LET code == f.b                 \* (the quit code of the context that looped, whatever its callbacks did to the thread's context)
                 r1 == JoinAll([r EXCEPT !.tq = <<>>, !.tlost = @ \cup InQueue(r)]) IN
-            IF Registered(r1) = {} /\ ~CtxPersist THEN Ret(ReleaseCtx(r1), code) ELSE Ret(r1, code)
+            IF Registered(r1) = {} /\ ~CtxPersist /\ r1.ctx.st # "none" /\ r1.ctx.gen = f.a THEN Ret(ReleaseCtx(r1), code) ELSE Ret(r1, code)
       [] f.k = "cdereg" ->       \* m_ctx_deregister(): every module is deregistered (not from the user), then the context is released
-            IF f.b = <<>> THEN (IF r.ctx.st = "none" THEN Ret(r, 0) ELSE Ret(ReleaseCtx(r), 0))
+            \* (a stop callback may have deregistered the context itself and registered a fresh one: that one stays)
+            IF f.b = <<>> THEN (IF r.ctx.st = "none" \/ r.ctx.gen # f.a THEN Ret(r, 0) ELSE Ret(ReleaseCtx(r), 0))
             ELSE LET x == Head(f.b)
                      rest == Push(r, [f EXCEPT !.b = Tail(f.b)])
                  IN IF x \notin Registered(r) THEN rest
                     ELSE Push(rest, Fr("dereg", x, FALSE, 0))
       [] f.k = "rereg" ->        \* m_mod_register() continuing after the replaced module was deregistered: its stop callback may have
                                  \* finalised or deregistered the context, in which nothing can be registered any more
-            IF r.ctx.st = "none" \/ r.ctx.fin THEN Ret(r, NEG)
+            IF r.ctx.st = "none" \/ r.ctx.fin \/ r.ctx.gen # f.b THEN Ret(r, NEG)
             ELSE Ret(TableAdd([r EXCEPT !.mod[m] = NewMod(m, f.a)], m), 0)
 
 RECURSIVE Run(_)
@@ -409,7 +413,7 @@ Can(op) == IF AtTop THEN op \in Ops ELSE (InCb /\ op \in CbOps /\ CbDepth(S.stac
 NoCtx == S.ctx.st = "none" \/ (S.cur # NoMod /\ "DENYCTX" \in S.mod[S.cur].fl)
 Handle(m) == S.mod[m].h > 0                 \* the program holds a reference to (a possibly zombie) module m
 \* M_MOD_ASSERT: zombie, or not the caller's context (none / denied)
-ModRefused(m) == S.mod[m].st = "zombie" \/ NoCtx
+ModRefused(m) == S.mod[m].st = "zombie" \/ NoCtx \/ S.mod[m].old          \* (old: its context was released; the thread may have a fresh one by now)
 Do(s) == S' = Run(s)
 Refuse(code) == S' = [S EXCEPT !.ret = code]
 
@@ -421,13 +425,13 @@ Rated(m, s) == IF NoTok(m) THEN Refuse(EAGAIN) ELSE Do(Spend(s, m))
 
 (* ------------------------------ context calls ------------------------------ *)
 CtxRegister == /\ Can("CtxRegister")
-               /\ (InCb => S.ctx.st # "none")      \* (modelling bound: no fresh context while a callback made on behalf of the released one is still executing)
+               /\ (InCb /\ S.ctx.st = "none" => S.ctx.gen < 2)      \* (modelling bound: at most two fresh contexts inside one outermost call)
                /\ IF S.ctx.st # "none" THEN Refuse(EEXIST)
-                  ELSE Do([S EXCEPT !.ctx = [Ctx0 EXCEPT !.st = "idle"], !.run = 0, !.ret = 0])
+                  ELSE Do([S EXCEPT !.ctx = [Ctx0 EXCEPT !.st = "idle", !.gen = IF AtTop THEN 0 ELSE S.ctx.gen + 1], !.run = 0, !.ret = 0])
 
 CtxDeregister == /\ Can("CtxDeregister")
                  /\ IF NoCtx \/ S.ctx.st # "idle" THEN Refuse(NEG)
-                    ELSE Do(Push([S EXCEPT !.ctx.fin = TRUE], Fr("cdereg", NoMod, 0, RegSeq(S))))   \* finalised first: nobody joins a context being torn down
+                    ELSE Do(Push([S EXCEPT !.ctx.fin = TRUE], Fr("cdereg", NoMod, S.ctx.gen, RegSeq(S))))   \* finalised first: nobody joins a context being torn down
 
 CtxFinalize == /\ Can("CtxFinalize")
                /\ IF NoCtx THEN Refuse(NEG) ELSE Do([S EXCEPT !.ctx.fin = TRUE, !.ret = 0])
@@ -473,7 +477,7 @@ ModRegister(m, i) ==
          THEN IF "REPLACE" \notin S.mod[m].fl THEN Refuse(EEXIST)                 \* the *registered* module decides whether it may be replaced
               ELSE IF "PERSIST" \in S.mod[m].fl /\ S.ctx.st = "looping" THEN Refuse(NEG)
               \* the replaced module is deregistered first (the program drops its old reference afterwards)
-              ELSE Do(Push(Push(S, Fr("rereg", m, i, 0)), Fr("dereg", m, FALSE, 0)))
+              ELSE Do(Push(Push(S, Fr("rereg", m, i, S.ctx.gen)), Fr("dereg", m, FALSE, 0)))
        ELSE Handle(m) = FALSE /\ Do(TableAdd([S EXCEPT !.mod[m] = NewMod(m, i), !.ret = 0], m))
 
 ModDeregister(m) ==
